@@ -32,6 +32,9 @@ def required_cells(tier):
         req["loc:" + loc] = 50 if q else 1000
     for w in ("container/receiver", "container/returned", "candidate/receiver", "candidate/returned"):
         req["pose:via-move/" + w] = 100 if q else 2000
+    for ks in ("L", "H", "S", "PL", "PG", "PH"):
+        req["sequence:P in %s/True-then-False" % ks] = 10 if q else 200
+        req["sequence:P in %s/False-then-True" % ks] = 10 if q else 200
     return req
 
 
@@ -61,12 +64,59 @@ def _displaced_container(rng, kx, s):
     return None
 
 
+def _hash_alike_candidates(rng, ks):
+    """two lattice points that CPython hashes alike (one coordinate -1 against -2, the others in {0, 1}: hash(-1) ==
+    hash(-2), also for their products) and a container of kind ks that holds the first and not the second (or both, or
+    neither): both are asked of ONE container object, in either order"""
+    F = gen.F
+    ax = rng.randrange(3)
+    o1, o2 = [a for a in range(3) if a != ax]
+
+    def vec(a, b, c):
+        w = [F(0)] * 3
+        w[ax], w[o1], w[o2] = F(a), F(b), F(c)
+        return tuple(w)
+    u, v = rng.randint(0, 1), rng.randint(0, 1)
+    p1, p2 = vec(-1, u, v), vec(-2, u, v)
+    e = vec(1, 0, 0)
+    lo = rng.choice((F(-3, 2), F(-1), F(-5, 4), F(-5, 2), F(-2), F(-1, 2)))       # where the container starts along the axis
+    w = rng.choice((vec(0, 1, 0), vec(0, 0, 1), vec(0, 1, 1), vec(0, 1, -1), vec(1, 1, 0), vec(1, 0, 2)))
+    if ks == "PH":
+        a0, a1 = -rng.randint(0, 1) - F(rng.randint(0, 1), 2), 1 + F(rng.randint(0, 2), 2)
+        b0, b1 = -rng.randint(0, 1) - F(rng.randint(0, 1), 2), 1 + F(rng.randint(0, 2), 2)
+        s = K.hull3d([vec(x, y, z) for x in (lo, F(2)) for y in (a0, a1) for z in (b0, b1)])
+    elif ks == "PG":
+        base = vec(lo, u, v)
+        far = vec(2, u, v)
+        s = ("PG", (K.sub(base, w), K.sub(far, w), K.add(far, w), K.add(base, w)))
+    elif ks == "S":
+        s = ("S", vec(lo, u, v), vec(2, u, v))
+    elif ks == "H":
+        s = ("H", vec(lo, u, v), e) if rng.random() < 0.7 else ("H", vec(lo + 1, u, v), K.mul(e, -1))
+    elif ks == "L":
+        s = ("L", rng.choice((p1, p2)), w if K.cross(w, e) != (0, 0, 0) else vec(0, 1, 0))
+    else:
+        n = rng.choice((vec(1, 0, 0), vec(1, 1, 0), vec(2, 0, 1), vec(1, -1, 1)))
+        s = ("PL", rng.choice((p1, p2)), n)
+    if s is None:
+        return None
+    seq = [p1, p2]
+    if rng.random() < 0.5:
+        seq.reverse()
+    return seq, s
+
+
 def cases(rng, budget, widx, nworkers, tier):
     gen.SPLIT_FACES[0] = 0.06        # membership must also hold for bodies one of whose faces is given in two coplanar pieces
     i = widx
     while True:
         kx, ks = PAIRS[i % len(PAIRS)]
         i += 1
+        if kx == "P" and rng.random() < 0.1:
+            hc = _hash_alike_candidates(rng, ks)
+            if hc is not None:
+                yield {"a": ("P", hc[0][1]), "first": ("P", hc[0][0]), "b": hc[1], "label": "hash-alike-candidates", "ls": rng.getrandbits(30)}
+                continue
         s = gen.rand_obj(rng, ks, small=rng.random() < 0.6)
         r = rng.random()
         x = None
@@ -102,7 +152,36 @@ def cases(rng, budget, widx, nworkers, tier):
         yield case
 
 
+def _judge_sequence(case):
+    """several candidates asked of ONE container object, one after the other: every answer is the exact one"""
+    s = case["b"]
+    xs = [case["first"], case["a"]]
+    exps = [K.subset(x, s) for x in xs]
+    if not core.admitted():
+        return core.not_admitted("margin")
+    mu = core.Multi()
+    ks = s[0]
+    mu.cell("gen:" + case["label"], "sequence:P in %s/%s-then-%s" % (ks, exps[0], exps[1]))
+    mu.cell("pair:P in %s/%s" % (ks, exps[1]))
+    os_ = lift(s, random.Random(case.get("ls", 0)))
+    for n, (x, exp) in enumerate(zip(xs, exps)):
+        ox = lift(x, None)
+        res, exc, impure = M.call(lambda p, q: p in q, ox, os_)
+        key = "P-in-%s%s" % (ks, ":second-question-to-one-container" if n else "")
+        if exc is not None:
+            mu.fail("%s:raises-%s" % (key, M.classify_exc(exc)), "`x in S` raised %s: %s (exact containment %s)" % (type(exc).__name__, exc, exp))
+        else:
+            if impure:
+                mu.fail(key + ":operand-modified", "`x in S` modified an operand: " + impure)
+            if bool(res) != exp:
+                mu.fail("%s:says-%s-exact-%s" % (key, bool(res), exp), "`x in S` is %r for %s, exact containment is %s%s" % (
+                    res, C.show_short(x, 60), exp, "; asked of the same container object just after %s (answer %s)" % (C.show_short(xs[0], 60), exps[0]) if n else ""))
+    return mu.result(outcome="%s,%s" % tuple(exps))
+
+
 def judge(case):
+    if case.get("first") is not None:
+        return _judge_sequence(case)
     x, s = case["a"], case["b"]
     exp = K.subset(x, s)
     if not core.admitted():
